@@ -33,12 +33,16 @@ theorem C04_load_x86 (t : BfType) (s : State) :
       (∀ i, i < 64 → (i < 32 ∨ t.usize = .b4) →
         (s'.get .rax).getLsbD i =
           if i < t.usize.bits then (unitAt s (s.get .rax) t.usize).getLsbD i
-          else (!(t.implUnsigned && decide (t.usize.bits < 32)) && (unitAt s (s.get .rax) t.usize).getLsbD (t.usize.bits - 1))) := by
+          else (!(t.implUnsigned && decide (t.usize.bits < 32)) && (unitAt s (s.get .rax) t.usize).getLsbD (t.usize.bits - 1))) ∧
+      (t.usize.bits < 32 → ∀ i, 32 ≤ i → (s'.get .rax).getLsbD i = false) := by
   obtain ⟨s', h1, h2, h3, h4⟩ := load_run t s
-  refine ⟨s', h1, h2, h3, h4, ?_⟩
-  intro i hi hi2
-  rw [h2]
-  exact loadUnit_bits t.usize t.implUnsigned _ i hi2 hi
+  refine ⟨s', h1, h2, h3, h4, ?_, ?_⟩
+  · intro i hi hi2
+    rw [h2]
+    exact loadUnit_bits t.usize t.implUnsigned _ i hi2 hi
+  · intro hu i hi
+    rw [h2]
+    exact loadUnit_high t.usize t.implUnsigned _ hu i hi
 
 /-- non-vacuity: `signed char` 0x80 at an odd address loads as 0xffffff80 (upper half clear), `unsigned short` 0x8001 as 0x8001 -/
 example : (loadUnit .b1 (BfType.char).implUnsigned 0x80#8) = 0xffffff80#64 ∧ (loadUnit .b2 (BfType.ushort).implUnsigned 0x8001#16) = 0x8001#64 := by
